@@ -8,6 +8,7 @@ skip_serializing_if) are built into every reader of Model/Decode/*.lean and comp
 -/
 import Rs1090.Proofs.Decode.AllGood
 import Rs1090.Props.C11
+import Rs1090.Model.Decode.Timed
 namespace Rs1090.Props.C07
 open Rs1090 Rs1090.Model Rs1090.Model.Message
 
@@ -27,14 +28,14 @@ theorem no_serde_error (bs : List Nat) (e : SerErr) : tryFrom bs ≠ .ok (.serEr
 /-- **No duplicate keys, finite numbers**: the result is one JSON object in which no object at any
     nesting depth repeats a key and every number is finite (`Json.wf`). -/
 theorem json_wellformed (bs : List Nat) (j : Json) (h : tryFrom bs = .ok (.json j)) : j.wf = true := by
-  obtain ⟨kvs, e, hn, hw, _⟩ := tryFrom_good bs _ h
+  obtain ⟨kvs, e, hn, hw, _, _⟩ := tryFrom_good bs _ h
   cases e
   simp only [Json.wf, Bool.and_eq_true, decide_eq_true_eq]
   exact ⟨hw, hn⟩
 
 theorem keys_nodup (bs : List Nat) (kvs : List (Key × Json)) (h : tryFrom bs = .ok (.json (.obj kvs))) :
     (kvs.map (·.1.id)).Nodup := by
-  obtain ⟨kvs', e, hn, _, _⟩ := tryFrom_good bs _ h
+  obtain ⟨kvs', e, hn, _, _, _⟩ := tryFrom_good bs _ h
   cases e; exact hn
 
 /-- **`df` and `icao24` are those of the frame**: for the nine address-carrying formats the object
@@ -76,6 +77,65 @@ theorem df_icao_consistent (bs : List Nat) (kvs : List (Key × Json))
           rcases hcases with rfl | rfl | rfl | rfl | rfl | rfl | rfl | rfl | rfl <;>
             (simp only [] at hv; cases hv; simp only [Rs1090.Model.Filters.display] at hname ha;
              refine ⟨k, _, hk, hname, ha _ rfl, ?_, ?_⟩ <;> simp [hm])
+
+/-! ### the timed record (`TimedMessage`) -/
+
+theorem hexVal_hexDigit : ∀ n, n < 16 → hexVal (hexDigit n) = some n := by decide
+
+/-- `hex::decode(hex::encode(frame)) = frame`: the recorded frame reads back as the same bytes -/
+theorem frame_hex_roundtrip (bs : List Nat) (hb : ∀ b ∈ bs, b < 256) (acc : List Nat) :
+    parseHexAux (Timed.frameHex bs) acc = some (acc.reverse ++ bs) := by
+  induction bs generalizing acc with
+  | nil => simp [Timed.frameHex, parseHexAux]
+  | cons b rest ih =>
+    have hb' : b < 256 := hb b (by simp)
+    simp only [Timed.frameHex, parseHexAux]
+    rw [hexVal_hexDigit _ (by omega), hexVal_hexDigit _ (by omega)]
+    simp only []
+    rw [ih (fun x hx => hb x (by simp [hx]))]
+    have : b / 16 % 16 * 16 + b % 16 = b := by omega
+    simp [this]
+
+/-- **A timed record keeps the input frame as hex, so decoding that hex again gives the same
+    fields**: the `frame` member parses back to the input bytes (hence, decoding being a function,
+    to the same message), and the record — time stamp, frame, the message's members flattened in,
+    metadata — is again a well-formed object without duplicate keys. -/
+theorem timed_record (bs : List Nat) (kvs : List (Key × Json)) (ts : Json) (mdata : List Json)
+    (h : tryFrom bs = .ok (.json (.obj kvs))) (hb : ∀ b ∈ bs, b < 256)
+    (hts : ts.wf = true) (hmeta : Json.wfList mdata = true) :
+    (Timed.timedJson ts bs (some kvs) mdata).wf = true ∧
+    parseHexAux (Timed.frameHex bs) [] = some bs ∧
+    tryFrom bs = .ok (.json (.obj kvs)) := by
+  obtain ⟨kvs', e, hn, hw, _, hav⟩ := tryFrom_good bs _ h
+  cases e
+  refine ⟨?_, by simpa using frame_hex_roundtrip bs hb [], h⟩
+  have wfapp : ∀ a b : List (Key × Json), Json.wfObj (a ++ b) = (Json.wfObj a && Json.wfObj b) := by
+    intro a b; induction a with
+    | nil => simp [Json.wfObj]
+    | cons x r ih => obtain ⟨k, v⟩ := x; simp [Json.wfObj, ih, Bool.and_assoc]
+  simp only [Timed.timedJson, Option.getD_some, Json.wf, Bool.and_eq_true, decide_eq_true_eq]
+  refine ⟨?_, ?_⟩
+  · simp only [List.cons_append, List.nil_append, Json.wfObj, wfapp, hts, hw, hmeta, Json.wf, Bool.and_self]
+  · simp only [keyIds, List.cons_append, List.nil_append, List.map_cons, List.map_append, List.map_nil]
+    have hk : ∀ k ∈ List.map (fun x => x.1.id) kvs, k ∉ timedKeys := hav
+    refine List.nodup_cons.mpr ⟨?_, List.nodup_cons.mpr ⟨?_, ?_⟩⟩
+    · intro hm
+      simp only [List.mem_cons, List.mem_append, List.mem_singleton] at hm
+      rcases hm with hm | hm | hm
+      · exact absurd hm (by decide)
+      · exact hk _ hm (by decide)
+      · exact absurd hm (by decide)
+    · intro hm
+      simp only [List.mem_append, List.mem_singleton] at hm
+      rcases hm with hm | hm
+      · exact hk _ hm (by decide)
+      · exact absurd hm (by decide)
+    · rw [List.nodup_append]
+      refine ⟨hn, by simp, ?_⟩
+      intro a ha b hb' hab
+      simp only [List.mem_singleton] at hb'
+      subst hab; subst hb'
+      exact hk _ ha (by decide)
 
 /-! sanity anchors: frames of the repository's own suite serialise -/
 example : ∃ kvs, tryFrom [0x8d,0x40,0x6b,0x90,0x20,0x15,0xa6,0x78,0xd4,0xd2,0x20,0xaa,0x4b,0xda] = .ok (.json (.obj kvs)) := by
